@@ -147,6 +147,19 @@ def sweep_scripts():
     return out
 
 
+def function_before_declaration_scripts():
+    """A helper defined textually BEFORE the device it uses is declared (legal Python: the name is looked up at call time)."""
+    out = []
+    devs = [("bz", "Buzzer(8)", ["bz.stop()", "bz.play_tone(440)"]), ("rgb", "RGBLed(9, 10, 11)", ["rgb.off()", "rgb.set_color(1, 2, 3)"]),
+            ("sv", "Servo(9)", ["sv.write(90)"]), ("mot", "DCMotor(2, 4, 5)", ["mot.stop()", "mot.set_speed(0.5)"]), ("led", "Led(13)", ["led.on()", "led.toggle()"]),
+            ("lcd", "LCD(rs=12, en=11, d4=5, d5=4, d6=3, d7=2)", ["lcd.clear()", 'lcd.line(0, "x")']), ("mon2", "SerialMonitor(115200)", ['mon2.write("x")'])]
+    for name, ctor, calls in devs:
+        body = "".join(f"    {c}\n" for c in calls)
+        out.append(corpus.HDR + f"def helper():\n{body}    return 1\n{name} = {ctor}\nq = helper()\nmon.write(q)\n")
+        out.append(corpus.HDR + f"{name} = {ctor}\ndef helper():\n{body}    return 1\nq = helper()\nmon.write(q)\n")
+    return out
+
+
 def readme_examples():
     txt = (REPO / "README.md").read_text()
     return [m.group(1) for m in re.finditer(r"```python\n(.*?)```", txt, re.S)]
@@ -178,8 +191,19 @@ def case_skiplog(case):
     status, out, skipped = transpile_with_hook(script)
     devices = declared_devices(script)
     recs = []
+    lines = script.splitlines()
     for scope, depth, line, reason in skipped:
         verdict, kind = classify(line, reason, devices)
+        if verdict == "dropped" and kind.startswith("device-call:") and scope == "function":
+            # a call on a device that is declared only AFTER the enclosing def: its own, separately recorded mechanism
+            try:
+                at = next(i for i, l in enumerate(lines) if l.strip() == line.strip())
+                name = line.strip().split(".")[0]
+                decl = next(i for i, l in enumerate(lines) if re.match(rf"\s*{re.escape(name)}\s*=\s*\w+\(", l))
+                if decl > at:
+                    kind = "device-call-in-function-before-declaration"
+            except StopIteration:
+                pass
         recs.append((scope, depth, line, reason, verdict, kind))
     return {"status": status, "records": recs, "script": script, "where": where}
 
@@ -237,7 +261,7 @@ def main() -> int:
     # ---- (a) skip log
     bases = corpus.mixed((PROP, sd), 40 if t == "quick" else 400, 10 if t == "quick" else 80, 10 if t == "quick" else 80)
     bases += readme_examples()
-    cases = [("corpus", s) for s in bases] + sweep_scripts()
+    cases = [("corpus", s) for s in bases] + sweep_scripts() + [("fn-before-decl", s) for s in function_before_declaration_scripts()]
     known_kinds = set()
     for f in rep.findings:
         known_kinds.update(f.get("kinds", []))
